@@ -70,12 +70,23 @@ JOBS["C11"] = [
     H("stream", "streamgate", "^TestC11Stream$", {"shards": 12, "checks": 35, "timeout": 1200}, {"shards": 14, "checks": 3000, "timeout": 3400}),
 ]
 
+JOBS["C12"] = [
+    H("consumers", "streamgate", "^TestC12Consumers$", {"shards": 10, "checks": 10, "timeout": 1200}, {"shards": 14, "checks": 150, "timeout": 3400}),
+    I("partialcache", "internal/chain/beacon", "^TestVerifC12PartialCache$", {"shards": 4, "checks": 60, "timeout": 1200}, {"shards": 14, "checks": 1500, "timeout": 3400}),
+]
+
 LEVELS = {"C13": "fault_enumeration"}
 
 _MACHINE = ("rapid state machine over a network of real beacon handlers: scheme in 5, n in 2..6, t in [n/2+1,n], back-end in {memdb (cap 2000 or 10), bolt trimmed, bolt untrimmed}, period 2..6 s; "
             "actions: tick, sub-period advance, burst of 2-6 periods, advance of a subset (skew/stall), realign, partition/heal, queue mode with generated delivery order and drops, duplicate mode, stop/restart (same or fresh store), "
             "forged partial injection (12 kinds incl. valid-for-clock+k), scripted lying sync peer (13 kinds), sync-stream tap. ")
 RULES = {
+    "C12": "(a) a beacon.NewCallbackStore over {trimmed bolt, untrimmed bolt, memdb ring} with 0-3 hostile consumers attached through the real SyncChain (Send blocks for ever / sleeps 2-20 ms / fails once / context cancelled mid-send), "
+           "one healthy consumer and one internal callback; then M appends with M in 1..3*CallbackWorkerQueue, forced to 2*queue+2.. in 2/3 of the cases, optionally a re-connect of the stalled client's address half-way. Oracle: every Put and Last returns "
+           "(bound 2 s, re-examined for 8 s more before it counts; normal < 5 ms), the healthy consumer and the internal callback receive all M beacons in order. (b) in-package rapid state machine on partialCache: appends by 3-7 signers over a "
+           "round window with 1..1000 distinct previous signatures, floods of 95-300 distinct (round, previous signature) pairs by one signer, FlushRounds. Oracle after every step: no operation by signer i removes signer j's partial from any entry; "
+           "partials per signer <= n*MaxPartialsPerNode, entries <= n*(MaxPartialsPerNode+1), bookkeeping list <= 3*MaxPartialsPerNode; FlushRounds(r) leaves no entry <= r. "
+           "Non-trivial: hostile consumer present with M > queue; a flood with >= 2 signers present. Distinct by full case descriptor.",
     "C11": "a beacon.NewCallbackStore over {trimmed bolt, untrimmed bolt, memdb ring of 10 that is already full} holding rounds 0..H (H in 0..40) and up to 3 real beacon.SyncChain invocations (two of them from the same client address = reconnect) "
            "with start round in {0, lowest stored, middle, head, head+1, head+5}. Every cursor Seek/Next, every stream Send and the AddCallback call parks at a gate owned by the harness, so the interleaving of the scan, the hand-over "
            "to live delivery and up to 14 store appends is a rapid-generated sequence of {open, step k gates, fail a send, put, cancel}. Oracle: the sequence of rounds handed to Send (up to the first failed send) is start, start+1, ... "
@@ -127,6 +138,7 @@ RULES = {
 }
 
 ASSUMPTIONS = {
+    "C12": ["consumer stalls are modelled at SyncStream.Send (HTTP/2 flow control and grpc.MaxConcurrentStreams not involved)", "appends are paced so that a consumer that keeps up is at most 20 rounds behind (a beacon chain appends once per period)", "process RSS not measured; bounds are on the cache structures"],
     "C11": ["streams are driven at the SyncChain/SyncStream interface (gRPC transport not involved)", "for the ring back-end the generator does not evict a round a scanning stream has not sent yet (it no longer exists)"],
     "C10": ["fewer than t colluding members (group-signed forgeries are out of scope for repair)", "follow mode through the control API is not exercised by this check (participant mode + check/repair only)", "in-memory back-end: only missing rounds are in scope for repair (the ring keeps old values by design)"],
     "C05": ["liveness is checked as bounded liveness in fake time, not unbounded eventually", "catch-up period < period (with equality a gap can never close by construction)", "in-memory network: gRPC back-off not modelled"],
